@@ -158,6 +158,8 @@ let nat_of_int (i : int) : nat =
   go i O
 let rec int_of_nat (n : nat) : int = match n with O -> 0 | S m -> 1 + int_of_nat m
 
+let contains s sub = try ignore (Str.search_forward (Str.regexp_string sub) s 0); true with Not_found -> false
+
 let fail_opt (i : int) : nat option = if i < 0 then None else Some (nat_of_int i)
 
 (* split "obs ## flag1 ## flag2": returns obs and the flag segments *)
@@ -976,14 +978,72 @@ let adapt_case (input : string) (obs : string) : verdict =
       { model; oracle = !oracle }
   | _ -> failwith "adapt: bad input"
 
+(* ---- C02: all cut sets of a short document ---- *)
+let cut_chunks (doc : z list) (mask : int) : z list list =
+  let n = List.length doc in
+  let arr = Array.of_list doc in
+  let cs = ref [] and start = ref 0 in
+  for i = 1 to n - 1 do
+    if mask land (1 lsl (i - 1)) <> 0 then begin
+      cs := Array.to_list (Array.sub arr !start (i - !start)) :: !cs;
+      start := i
+    end
+  done;
+  cs := Array.to_list (Array.sub arr !start (n - !start)) :: !cs;
+  List.rev !cs
+
+let ends_with s suf = let n = String.length s and m = String.length suf in n >= m && String.sub s (n - m) m = suf
+
+let cut_obs (o : string) : string =
+  if ends_with o " R ok" then o
+  else if contains o "HANG" then "EV . R HANG"
+  else if contains o "PANIC" then "EV . R PANIC"
+  else "EV . R err"
+
+let cuts_case (f : fmt) (input : string) (obs0 : string) : verdict =
+  let obs, _ = split_flags_all obs0 in
+  match words input with
+  | [ _max; dochex ] ->
+      let doc = bytes_of_hex dochex in
+      let whole = cut_obs (f.parse "P" (-1) [ doc ]) in
+      let n = List.length doc in
+      let count = ref 0 in
+      let diff = ref None in
+      if not (ends_with whole "HANG" || ends_with whole "PANIC") && n > 0 then begin
+        let masks = 1 lsl (n - 1) in
+        (try
+           for m = 0 to masks - 1 do
+             let cs = cut_chunks doc m in
+             List.iter (fun mode ->
+                 if not (mode = "R" && m mod 3 <> 0 && n > 6) then begin
+                   let o = cut_obs (f.parse mode (-1) cs) in
+                   incr count;
+                   if o <> whole then begin diff := Some (Printf.sprintf "DIFF %s %d %s" mode m o); raise Exit end
+                 end) [ "W"; "R" ]
+           done;
+           let cs = List.concat_map (fun b -> [ []; [ b ] ]) doc @ [ [] ] in
+           let o = cut_obs (f.parse "W" (-1) cs) in
+           incr count;
+           if o <> whole then diff := Some (Printf.sprintf "DIFF E 0 %s" o)
+         with Exit -> ())
+      end;
+      let model = match !diff with
+        | Some d -> Printf.sprintf "WHOLE %s %s" whole d
+        | None -> Printf.sprintf "WHOLE %s ALL %d" whole !count in
+      let oracle = ref [] in
+      (if contains obs " DIFF " then oracle := ("C02", "a chunking of the document differs from the whole-buffer parse: " ^ obs) :: !oracle);
+      (if contains obs "HANG" || contains obs "PANIC" then oracle := ("C03", "parser crashed or hung doc=" ^ dochex) :: !oracle);
+      { model; oracle = !oracle }
+  | _ -> failwith "cuts: bad input"
+let cuts_case f input obs = try cuts_case f input obs with Unknown_float -> { model = fst (split_flags obs); oracle = [] }
+
 let fmts = [ cbor_fmt; ubj_fmt; json_fmt ]
 let () = all_fmts := fmts
 let fmt_handlers =
   ("xc", xc_case) :: ("adapt", adapt_case) ::
   List.concat_map (fun f -> [ (f.fname ^ "enc", enc_case f); (f.fname ^ "parse", parse_case f); (f.fname ^ "dec", dec_case f);
-                              ("rt" ^ f.fname, rt_case f); ("x10" ^ f.fname, x10_case f); ("hist" ^ f.fname, hist_case f) ]) fmts
+                              ("rt" ^ f.fname, rt_case f); ("x10" ^ f.fname, x10_case f); ("hist" ^ f.fname, hist_case f); ("cuts" ^ f.fname, cuts_case f) ]) fmts
 
-let contains s sub = try ignore (Str.search_forward (Str.regexp_string sub) s 0); true with Not_found -> false
 (* a crash or hang is compared as such: what was delivered before is not part of the observation *)
 let canon_obs (o : string) : string =
   if contains o "HANG" then "HANG" else if contains o "PANIC" then "PANIC" else o
